@@ -433,6 +433,13 @@ def check_property(prop, tier, seed, rebaseline=False, jobs=None):
                            "repeated key left open among the values computed for it (Python keeps the last; the values differ only in object identity)")
         if c.get("decreases") and any("size" in str(a) for a in c.get("axioms", [])):
             scanned.append(f"termination of the recursion in {k.split(':')[1]} is relative to the assumed size lemma listed above")
+        for ln, lp in (c.get("loops") or {}).items():
+            if not c.get("assumed") and lp.get("prefix_lemma"):
+                scanned.append(f"in the proof of {k.split(':')[1]} (loop {ln}) three facts about prefixes of the iterated sequence q are supplied by the engine as "
+                               "hypotheses, not proved by the solvers: q[:0] has no member; q[:len(q)] == q; x in q[:i+1] iff x in q[:i] or x == q[i] (for i < len(q))")
+            if not c.get("assumed") and lp.get("membership_lemma"):
+                scanned.append(f"in the proof of {k.split(':')[1]} (loop {ln}) the engine supplies, as a hypothesis, that membership in the iterated sequence is "
+                               "membership at some index below its length")
         if c.get("external"):
             scanned.append(f"{k.split(':')[1]} is a library function without source in the repository: its contract is a model")
     ev = {"property_id": prop, "tier": tier, "seed": seed, "level": level, "coverage": cov,
